@@ -96,3 +96,32 @@ func BlockForever() {
 		ChanRetry(first)
 	}
 }
+
+// Gosched replaces runtime.Gosched in the instrumented packages: the task
+// gives way until some other task has made progress (a spin-wait on a flag
+// would otherwise keep the baton forever).
+//
+//go:norace
+func Gosched() {
+	r := run
+	if r == nil {
+		runtime.Gosched()
+		return
+	}
+	if r.aborting {
+		panic(abortSentinel)
+	}
+	others := false
+	for i := int32(0); i < r.ntasks; i++ {
+		t := r.tasks[i]
+		if i != r.cur && t.state != tsDone {
+			others = true
+		}
+	}
+	if !others {
+		r.point("gosched", 0)
+		return
+	}
+	r.progress++
+	r.block(wkChan, nil, r.progress)
+}
